@@ -67,12 +67,18 @@ func (p *probe) ModifyRequest(req *http.Request) error {
 		s.secure = s.sess.IsSecure()
 	}
 	if req.Header.Get("X-Verif-Hijack") == "1" && ctx != nil {
-		conn, _, err := ctx.Session().Hijack()
+		conn, brw, err := ctx.Session().Hijack()
 		s.hijackErr = err
 		if err == nil {
-			// the hijacker talks to the client through the connection it was handed
-			conn.SetWriteDeadline(time.Now().Add(5 * time.Second))
+			// the hijacker talks to the client through what it was handed: the
+			// connection and the buffered reader/writer on it, in both directions
+			conn.SetDeadline(time.Now().Add(5 * time.Second))
 			conn.Write([]byte("HIJACKED-" + s.id + "\n"))
+			brw.WriteString("VIA-BRW-" + s.id + "\n")
+			brw.Flush()
+			if line, rerr := brw.ReadString('\n'); rerr == nil {
+				conn.Write([]byte("ECHO-" + line))
+			}
 		}
 	}
 	p.mu.Lock()
@@ -265,10 +271,26 @@ func runOnce(c Case, T time.Duration) (v kit.Verdict) {
 			break
 		}
 		if in.Hijack {
-			marker := "HIJACKED-" + id + "\n"
+			marker := "HIJACKED-" + id + "\nVIA-BRW-" + id + "\n"
 			conn.SetReadDeadline(time.Now().Add(T))
 			buf := make([]byte, len(marker))
 			n, err := io.ReadFull(br, buf)
+			if err == nil && string(buf[:n]) == marker {
+				// and the other direction: what the client sends now reaches the hijacker
+				echo := "ECHO-PING-" + id + "\n"
+				conn.SetWriteDeadline(time.Now().Add(5 * time.Second))
+				conn.Write([]byte("PING-" + id + "\n"))
+				ebuf := make([]byte, len(echo))
+				conn.SetReadDeadline(time.Now().Add(T))
+				en, eerr := io.ReadFull(br, ebuf)
+				if eerr != nil || string(ebuf[:en]) != echo {
+					class := "hijacker-cannot-read-from-the-client"
+					if netkit.IsTimeout(eerr) {
+						class = "timeout-hijacker-echo"
+					}
+					v.Addf("C05/"+m+"/hijack/"+class, "the client sent a line after the hijack; the hijacker was to echo it through the connection it was handed, the client read %q (%v)", ebuf[:en], eerr)
+				}
+			}
 			if err != nil || string(buf[:n]) != marker {
 				class := "hijacker-not-handed-the-decrypted-connection"
 				if netkit.IsTimeout(err) {
